@@ -266,8 +266,8 @@ def contract_and_count_pairs(char_list, pair_to_contract, pair_counts, new_code=
 
         new_char_index += 1
 
-    if not skip_char:
-        new_char_list[new_char_index] = char_list[i + 1]
+    if not skip_char and len_char_list > 0:
+        new_char_list[new_char_index] = char_list[len_char_list - 1]
         new_char_index += 1
 
     return new_char_list[:new_char_index], pair_counts
@@ -494,8 +494,8 @@ def contract_pair(char_list, pair_to_contract, new_code=-1):
 
         new_char_index += 1
 
-    if not skip_char:
-        new_char_list[new_char_index] = char_list[i + 1]
+    if not skip_char and len_char_list > 0:
+        new_char_list[new_char_index] = char_list[len_char_list - 1]
         new_char_index += 1
 
     return new_char_list[:new_char_index]
